@@ -48,7 +48,7 @@ def bounds(tier):
         "batch_every_n": "SymInt in [0,6]",
         "batch_every_b": "SymInt in [0,16]",
         "batch_every_t": [0, 10],
-        "script_events": "5 (4 with the second, metadata-less topic)" if q else "6 (5)",
+        "script_events": "5 (4 with the second, metadata-less topic)",
         "sends": 3,
         "fault_budget": 0 if q else 1,
         "message_variants": 2,
@@ -73,7 +73,7 @@ def jobs(tier):
                     "batch_t": bt,
                     "codec": CODEC_NONE,
                     "api": 0,
-                    "K": (4 if two else 5) if q else (5 if two else 6),
+                    "K": (4 if two else 5),
                     "sends": 3,
                     "faults": 0 if q else 1,
                     "max_attempts": 2,
@@ -89,7 +89,7 @@ def jobs(tier):
     # send from a result handler -- i.e. while the producer is still inside its own dispatch
     for bt in (0, 10):
         out.append({"acks": 1, "batch": True, "sym_thresholds": (6, 16), "batch_t": bt, "codec": CODEC_NONE, "api": 0,
-                    "K": 4 if q else 5, "sends": 3, "faults": 0 if q else 1, "max_attempts": 2, "sym_attempts": False, "two_topics": False,
+                    "K": 4, "sends": 3, "faults": 0 if q else 1, "max_attempts": 2, "sym_attempts": False, "two_topics": False,
                     "cancel": True, "stop": False, "variants": 2, "errcodes": 1, "sync": "any", "sync_budget": 1, "resend": True})
     return out
 
